@@ -541,6 +541,7 @@ func init() {
 		r.Assumptions = []string{"config statements inside rpc / action / notification are outside the claim", "the namespace of an implicit case itself is not compared"}
 		designRun(r, "C12", tierCfgs(r, []string{"cfg", "aug_quick", "aug_late", "uses_quick"}, []string{"aug_sub", "uses"}), nil)
 		directionB(r, "C12", false)
+		SessionHistories(r, "C12", "dv", "tgt2")
 	}
 	core.Checks["C06"] = func(r *core.Run) {
 		r.Rule = "A: the uses space: a grouping g1 of four shapes (container with default leaf and nested uses; list with min-elements and a leaf-list with defaults; config-false container with choice/case and shorthand member; container with an inner grouping shadowing the outer g2) defined in the imported module, in its submodule or in the using module, used at two sites (container, list, rpc input, notification, through another grouping, inside a case), names inside it (g2) shadowed by a same-named grouping of the user; with one later mutation of the first instance (augment, deviate not-supported, deviate add config) from a third module; every path, kind, attribute and Namespace() of every instance compared with the inlined-copy semantics of Schema.tla. Non-trivial = every case."
@@ -645,8 +646,12 @@ func init() {
 		r.Exhaustive = true
 		r.Assumptions = []string{"must / unique deviations, delete default on a leaf-list, replace default where none exists, delete of an implicit element bound are outside the claim (DESIGN.md D.1)"}
 		designRun(r, "C08", tierCfgs(r, []string{"dev1", "dev2", "dev3", "dev_triples"}, nil), nil)
+		SessionHistories(r, "C08", "dv")
 	}
 }
+
+// SessionHistories is set by the session family (which imports this package).
+var SessionHistories = func(r *core.Run, prop string, texts ...string) {}
 
 // C13Registry is set by the registry family.
 var C13Registry = func(r *core.Run) {}
